@@ -14,6 +14,10 @@ typedef uint64_t vr64;
 
 enum { VRP_FALSE, VRP_OEQ, VRP_OGT, VRP_OGE, VRP_OLT, VRP_OLE, VRP_ONE, VRP_ORD, VRP_UEQ, VRP_UGT, VRP_UGE, VRP_ULT, VRP_ULE, VRP_UNE, VRP_UNO, VRP_TRUE };
 
+/* coroutine mode (ir2c --coroutine): header of every thread-function context; blk_op: 0 not started, 1 mutex_lock, 2 cond_wait, 3 join */
+struct vr_coro { int pc, done, blk_op; char* blk_a0; char* blk_a1; };
+void vh_access(char* p, uint64_t size, int is_write);
+
 /* exception flag protocol */
 extern int exc_pending, exc_type;
 extern char* exc_obj;
@@ -78,6 +82,29 @@ void* vr_memset(void* d, int c, uint64_t n);
 #define vr_memset(d,c,n) memset((d),(c),(n))
 #endif
 
+/* typed heap blocks (ir2c --typed-malloc): CBMC derives the type of a dynamic object from a `count * sizeof(T)` size
+ * expression at the malloc call itself; vr_malloc_hook / vr_realloc_hook are provided by the model in use */
+void* vr_malloc_hook(void* fresh, uint64_t bytes);
+void* vr_realloc_hook(void* old, void* fresh, uint64_t bytes);
+#ifdef __CPROVER__
+#define VR_TYPED_(T, n) ((n) != 0 && (n) % sizeof(T) == 0 ? (malloc)(((n) / sizeof(T)) * sizeof(T)) : (malloc)((n) ? (n) : 1))
+#ifdef VR_POOL_ALLOC
+/* the model may serve a request from a static pool instead (vr_pool_take() != 0): a block allocated inside code that
+ * symex re-executes many times then stays one array with a symbolic index instead of an ever-growing set of objects */
+int vr_pool_take(void);
+void* vr_pool_alloc(uint64_t bytes);
+void* vr_pool_realloc(void* old, uint64_t bytes);
+#define VR_MALLOC(T, n) (vr_pool_take() ? vr_pool_alloc(n) : vr_malloc_hook(VR_TYPED_(T, n), (n)))
+#define VR_REALLOC(T, p, n) (vr_pool_take() ? vr_pool_realloc((p), (n)) : vr_realloc_hook((p), VR_TYPED_(T, n), (n)))
+#else
+#define VR_MALLOC(T, n) vr_malloc_hook(VR_TYPED_(T, n), (n))
+#define VR_REALLOC(T, p, n) vr_realloc_hook((p), VR_TYPED_(T, n), (n))
+#endif
+#else
+#define VR_MALLOC(T, n) vr_malloc_hook((malloc)((n) ? (n) : 1), (n))
+#define VR_REALLOC(T, p, n) vr_realloc_hook((p), (malloc)((n) ? (n) : 1), (n))
+#endif
+
 static inline uint32_t vr_ctlz32(uint32_t x){ return x ? (uint32_t)__builtin_clz(x) : 32u; }
 static inline uint64_t vr_ctlz64(uint64_t x){ return x ? (uint64_t)__builtin_clzll(x) : 64u; }
 static inline uint32_t vr_cttz32(uint32_t x){ return x ? (uint32_t)__builtin_ctz(x) : 32u; }
@@ -89,8 +116,10 @@ static inline uint64_t vr_cttz64(uint64_t x){ return x ? (uint64_t)__builtin_ctz
 #include "rt_ord.h"
 #elif defined(VR_SYM)
 #include "rt_sym.h"
+#elif defined(VR_UF)
+#include "rt_uf.h"
 #else
-#error "select a value domain: -DVR_IEEE / -DVR_ORD / -DVR_SYM"
+#error "select a value domain: -DVR_IEEE / -DVR_ORD / -DVR_SYM / -DVR_UF"
 #endif
 #ifdef __cplusplus
 }
